@@ -191,12 +191,22 @@ Models.contains = _contains
 _WRITES = ("attr_write", "dict_write", "list_write", "set_write", "any_write", "open", "write", "fs_modify")
 
 
-def _assigns_names(body):
+def _assigns_other_than_names(body):
+    """bindings the rule cannot undo: augmented assignment (reads the previous iteration's value), del, global, walrus, with"""
     for st in body:
         for n in ast.walk(st):
-            if isinstance(n, (ast.Assign, ast.AugAssign, ast.AnnAssign, ast.Delete, ast.Global, ast.Nonlocal, ast.NamedExpr, ast.With)):
+            if isinstance(n, (ast.AugAssign, ast.Delete, ast.Global, ast.Nonlocal, ast.NamedExpr, ast.With)):
                 return True
     return False
+
+
+def _names_bound(body):
+    out = set()
+    for st in body:
+        for n in ast.walk(st):
+            if isinstance(n, ast.Name) and isinstance(n.ctx, ast.Store):
+                out.add(n.id)
+    return out
 
 
 _orig_for = Engine.s_For
@@ -207,8 +217,12 @@ def _s_for(self, s, env):
     if not isinstance(it, (AnyDict, AnySet, AnyItems)):
         # (the iterable was evaluated once already: evaluate-once semantics are kept by handing the value on)
         return _for_value(self, s, env, it)
-    if _assigns_names(s.body) or s.orelse:
-        raise Unsupported("loop over a collection of unbounded size whose body rebinds names (needs an inductive invariant)")
+    if s.orelse or _assigns_other_than_names(s.body):
+        raise Unsupported("loop over a collection of unbounded size with an else clause or non-name bindings (needs an inductive invariant)")
+    # a SEARCH loop may bind local names on its way (path = join(dir, entry) ...).  After normal termination they hold the values of the
+    # LAST member visited, which the rule does not know: they (and the loop variable) are UNBOUND afterwards, so that code reading them
+    # fails visibly instead of being verified against a wrong value.  On the exit branch the bindings are those of the exit member.
+    rebound = _names_bound(s.body) | _names_bound([ast.Expr(value=s.target)] if False else []) | set(n.id for n in ast.walk(s.target) if isinstance(n, ast.Name))
     path = self.path
     witnesses = path.__dict__.setdefault("witnesses", [])
 
@@ -254,6 +268,8 @@ def _s_for(self, s, env):
     # writes to objects the body itself created (temporaries of the callees) are not effects of the loop
     if any(e[0] in _WRITES and (e[0] in ("any_write", "open", "write", "fs_modify") or id(e[1]) in pre) for e in path.effects[mark:]):
         raise Unsupported("loop over a collection of unbounded size whose body has effects (needs an inductive invariant)")
+    for n in rebound:
+        env.pop(n, None)
 
 
 def _for_value(self, s, env, it):
